@@ -305,8 +305,8 @@ fn run_property(prop: &'static str, tier: &str, seed: u64) -> i32 {
                 ctx.run(&SinkSub, n, 16);
                 let n = ctx.n(3000, 60_000);
                 ctx.run(&SinkThrSub, n, 4);
-                let n = ctx.n(6000, 120_000);
-                ctx.run(&SinkGateSub, n, 4);
+                let n = ctx.n(2000, 40_000);
+                ctx.run(&SinkGateSub, n, 3);
             }
         }
         "C11" | "C19" => {
